@@ -15,7 +15,7 @@ CONFIG = {
         "model/Id62.v is the hand-written model of lib/id62/uuid62.go; it is tied to the code by the correspondence stream of this run and by the regenerated pattern string",
         "identifiers are byte lists of length 16 with every byte < 256 (wf_id), strings are byte lists",
         "Parse is not a validator and the property does not ask it to be one: it accepts an optional sign, any number of base62 digits (leading zeros, fewer or more than 22 characters) of magnitude < 2^128 and drops the sign (C20_parse_accepted_language, C20_parse_is_not_a_validator: Parse(\"-1\") = Parse(\"+1\") = Parse(\"1\")); the property text constrains Parse on renderings (round trip), on all strings (no panic) and on values that do not fit (rejected, with 'value' = the magnitude big.Int.Bytes returns) - all proved; README/docs make no claim about Parse; on strings of the published shape, which is what a key:id62 validation rule admits, Parse is the exact inverse of String (C20_parse_inverse_on_pattern). Judged not a defect of C20; noted for the maintainers (a negative number silently becomes its absolute value)",
-        "New() / NewString() (uuid.NewV7 through github.com/google/uuid) are outside the statement and not modelled: any 16 bytes render and round-trip (C20_full quantifies over all of them); UUIDString / Base64String likewise",
+        "New() / NewString() (uuid.NewV7 through github.com/google/uuid) are outside the statement and not modelled: any 16 bytes render and round-trip (C20_full quantifies over all of them); the identifiers the package mints are checked by the oracle stream `new` (22 characters of the pattern, parse back, distinct) and their renderings go to Coq as CRender cases; UUIDString / Base64String not modelled",
     ],
     "mult_search": 4,
     "refuted": [],
